@@ -27,7 +27,11 @@ func init() {
 }
 
 func runC08(r *Run) {
-	switch r.Tape.Pick([]int{6, 3, 2}) {
+	switch r.Tape.Pick([]int{6, 3, 2, 1}) {
+	case 3:
+		r.Cfg["scenario"] = "handoff-sink"
+		c08HandoffSink(r)
+		return
 	case 0:
 		r.Cfg["scenario"] = "simlease"
 		c08Cluster(r, false)
@@ -626,4 +630,65 @@ func c08ClusterID(r *Run) {
 	}
 	r.State("cluster-id/%s/%q/leaves%v", via, repID, primaryLeaves)
 	h.closeConns()
+}
+
+// c08HandoffSink: the requested node is registered as a subscriber (connected)
+// but nobody takes the lease id from its channel - its stream handler is busy
+// or its connection is about to go away. A handoff may only complete by
+// delivering the id, so the primary must either deliver it or stay primary; it
+// must never step down with the lease preserved for a node that did not get it.
+func c08HandoffSink(r *Run) {
+	t := r.Tape
+	svc := NewSimLease(r, 10*time.Second, time.Second)
+	n := r.NewNode(NodeCfg{Candidate: true})
+	n.Cfg.Leaser = svc.Leaser(n)
+	n.Cfg.Tune = func(s *litefs.Store) { s.ReconnectDelay = 50 * time.Millisecond }
+	if err := n.Open(); err != nil || !n.WaitPrimary(10*time.Second) {
+		r.Inconclusive("open: %v", err)
+		return
+	}
+	_, sess := svc.Holder()
+	const target = uint64(0x2222)
+	sub := n.Store.SubscribeChangeSet(target)
+	closeAfter := time.Duration(t.Range(0, 3)) * time.Second // 0 = stays subscribed
+	takes := t.Chance(1, 4)                                  // the subscriber does read its channel after a while
+	r.Cfg["close_after"], r.Cfg["takes"] = closeAfter.String(), takes
+	got := make(chan string, 1)
+	if takes {
+		go func() {
+			time.Sleep(time.Duration(t.Range(100, 3000)) * time.Millisecond)
+			select {
+			case id := <-sub.HandoffCh():
+				got <- id
+			case <-time.After(10 * time.Second):
+			}
+		}()
+	}
+	if closeAfter > 0 && !takes {
+		go func() { time.Sleep(closeAfter); _ = sub.Close() }()
+	}
+	ctx, cancel := context.WithTimeout(context.Background(), 8*time.Second)
+	err := n.Store.Handoff(ctx, target)
+	cancel()
+	time.Sleep(7 * time.Second)
+	delivered := ""
+	select {
+	case delivered = <-got:
+	default:
+	}
+	prim := n.Store.IsPrimary()
+	holderNode, holderSess := svc.Holder()
+	r.Logf("handoff => %v; delivered %q; still primary %v; lease holder n%d %s", err, delivered, prim, holderNode, holderSess)
+	r.Count("c08.clusterid.checked") // (counts as a non-trivial run)
+	if delivered != "" {
+		r.Check(delivered == sess, "c08.handoff-target", "the subscriber received lease id %q, the primary holds %q", delivered, sess)
+		r.State("handoff-sink/delivered/primary%v", prim)
+		return
+	}
+	// nobody took the id: the node must still be primary on its own lease
+	if !r.Check(prim, "c08.handoff-lost", "the primary stepped down for a handoff (request answered %v) although the requested node never took the lease id; the lease %s is still held in the service by n%d/%s", err, sess, holderNode, holderSess) {
+		return
+	}
+	r.Check(holderSess == sess && svc.SessionLive(sess), "c08.handoff-lost", "after an undelivered handoff the primary's lease %s is no longer the live holder (holder %s)", sess, holderSess)
+	r.State("handoff-sink/undelivered/close%v", closeAfter > 0)
 }
